@@ -228,9 +228,10 @@ Words == <<
     >>
 StrDom == AllSeqs(StrAlphabet, MaxLen) \o Words
 
-\* -- epochs: read, write \in {nil} + all sequences over 0..3 of length <= 3 (unsorted, duplicates and
-\*    the explicitly empty list included), plus boundary shapes
-ListDom == <<NILL>> \o [i \in 1..Off(4, 4) |-> L(SeqNum(<<0, 1, 2, 3>>, 3, i))]
+\* -- epochs: read, write \in {nil} + all sequences over 0..3 of length <= ListLen (unsorted, duplicates
+\*    and the explicitly empty list included), plus boundary shapes
+ListLen == EnvInt("VERIF_LISTLEN", 3)
+ListDom == <<NILL>> \o [i \in 1..Off(4, ListLen + 1) |-> L(SeqNum(<<0, 1, 2, 3>>, ListLen, i))]
 NL == Len(ListDom)
 UpTo(n) == [i \in 1..(n + 1) |-> i - 1]                   \* <<0, 1, ..., n>>
 Boundary == <<
@@ -257,9 +258,18 @@ CRDom == [i \in 1..(NCL * NCL) |-> Ep(CRLists[((i - 1) \div NCL) + 1], CRLists[(
 -----------------------------------------------------------------------------
 (* Laws of the statement on the reference: one state per input, see RevEpoch_mc.cfg *)
 
+\* The run can be restricted to some kinds of input (VERIF_KINDS = sum of rev 1, str 2, ep 4, cr 8) and to
+\* a slice of the epoch domain (VERIF_LO..VERIF_HI), so that several JVMs share the work.
+Kinds == EnvInt("VERIF_KINDS", 15)
+HasKind(k) == LET b == CASE k = "rev" -> 1 [] k = "str" -> 2 [] k = "ep" -> 4 [] k = "cr" -> 8
+              IN  (Kinds \div b) % 2 = 1
+Lo == EnvInt("VERIF_LO", 1)
+HiOr(n) == LET h == EnvInt("VERIF_HI", n) IN IF h < n THEN h ELSE n
 VARIABLE x
-Inputs == ({"rev"} \X (1..Len(RevDom))) \cup ({"str"} \X (1..Len(StrDom)))
-              \cup ({"ep"} \X (1..Len(EpDom))) \cup ({"cr"} \X (1..Len(CRDom)))
+Inputs == (IF HasKind("rev") THEN {"rev"} \X (1..Len(RevDom)) ELSE {})
+              \cup (IF HasKind("str") THEN {"str"} \X (1..Len(StrDom)) ELSE {})
+              \cup (IF HasKind("ep") THEN {"ep"} \X (Lo..HiOr(Len(EpDom))) ELSE {})
+              \cup (IF HasKind("cr") THEN {"cr"} \X (1..Len(CRDom)) ELSE {})
 Init == x \in Inputs
 Next == UNCHANGED x
 Spec == Init /\ [][Next]_x
@@ -343,7 +353,7 @@ RevRows == [i \in 1..Len(RevDom) |-> LET n == RevDom[i] IN
 StrRows == [i \in 1..Len(StrDom) |-> LET s == StrDom[i] IN
               [s |-> s, rev |-> RevParse(s), canon |-> CanonSyntax(s), bare |-> RevFromJSON(s),
                short |-> Flat(ParseShort(s))]]
-EpRows == [i \in 1..Len(EpDom) |-> LET e == EpDom[i] IN
+EpRows == [k \in 1..(HiOr(Len(EpDom)) - Lo + 1) |-> LET e == EpDom[Lo + k - 1] IN
               [r |-> e.r, w |-> e.w, valid |-> ValidRaw(e), str |-> EpochString(e), json |-> EpochJSON(e),
                self |-> CanRead(e, e), zero |-> IsZero(e),
                rt |-> Flat(ParseStructured(MarshalDoc(e).r, MarshalDoc(e).w)),
@@ -351,7 +361,7 @@ EpRows == [i \in 1..Len(EpDom) |-> LET e == EpDom[i] IN
 CRRows == [i \in 1..Len(CRDom) |-> [j \in 1..Len(CRDom) |-> CanRead(CRDom[i], CRDom[j])]]
 
 Part == EnvStr("VERIF_PART", "all")
-Table == [part |-> Part, maxlen |-> MaxLen,
+Table == [part |-> Part, maxlen |-> MaxLen, listlen |-> ListLen, lo |-> Lo, hi |-> HiOr(Len(EpDom)), nepochs |-> Len(EpDom),
           revs   |-> IF Part \in {"all", "rev"} THEN RevRows ELSE <<>>,
           strs   |-> IF Part \in {"all", "rev"} THEN StrRows ELSE <<>>,
           epochs |-> IF Part \in {"all", "epoch"} THEN EpRows ELSE <<>>,
